@@ -722,7 +722,15 @@ def run_case(case, prop):
         # (ii) snapshots of every earlier returned model, after every operation
         if prop == 'C13':
             for (m, dg, qs, k) in returned[:-1] if (op[0] == 'EST' and returned and returned[-1][3] == len(est_sets)) else returned:
-                now = snapshot_digest(m, qs)
+                try:
+                    with np.errstate(all='ignore'):
+                        now = snapshot_digest(m, qs)
+                except HarnessError:
+                    raise
+                except Exception as e:      # the snapshot could be taken when the model was returned: it must still be possible
+                    viol.append(Violation('c13-snapshot', 'c13-snapshot:unreadable', 'the model returned by EST #%d can no longer be read after operation #%d %s: %s: %s' % (
+                        k, oi, op[:4], type(e).__name__, e)).as_dict())
+                    break
                 if now != dg:
                     viol.append(Violation('c13-snapshot', 'c13-snapshot', 'the model returned by EST #%d changed its answers/parameters after operation #%d %s' % (k, oi, op[:4])).as_dict())
                     break
